@@ -60,6 +60,8 @@ func init() {
 				Body: func() { resizeWithWaiting(k.n, k.c) }, NeedCounters: []string{"answered-after-resize"}})
 			out = append(out, &vexplore.Scenario{Name: k.n + "-recv-times-out-between-request-and-reply", Mode: "enum", Reset: kit.ResetGlobals,
 				Body: func() { recvTimesOutBetween(k.n, k.c) }, NeedCounters: []string{"reply-after-timed-out-recv-routed-or-refused", "next-request-answered"}})
+			out = append(out, &vexplore.Scenario{Name: k.n + "-reply-message-arrives-with-a-header-of-its-own", Mode: "enum", Reset: kit.ResetGlobals,
+				Body: func() { replyWithHeader(k.n, k.c) }, NeedCounters: []string{"own-header-replaced-by-the-routing-header"}})
 			out = append(out, &vexplore.Scenario{Name: k.n + "-shared-reply-two-contexts", Mode: "sched", Bound: b, Reset: kit.ResetGlobals,
 				Body: func() { schedSharedReply(k.n, k.c) }})
 		}
@@ -392,6 +394,68 @@ func recvTimesOutBetween(kind string, c ctor) {
 	roundTrip(1, 0, 0, "second")
 	roundTrip(0, 2, 0, "third")
 	kit.Observe("%s ctx=%v n=%d early=%v", kind, useCtx, ntimeouts, early)
+	kit.Must("Close", func() { _ = w.sock.Close() })
+}
+
+// replyWithHeader: the reply handed to SendMsg is not a fresh message: it carries a header of its
+// own - the 4 byte request id a gateway got with the answer from its back-end REQ socket, 8 or 36
+// bytes left from an earlier life - or it is the reply message of the previous round, sent again
+// (the caller kept a reference).  What goes on the wire is the request's routing header and the
+// body, nothing of the message's former header, for three round trips in a row.
+func replyWithHeader(kind string, c ctor) {
+	useCtx := kit.ChooseFree(2) == 1
+	mode := kit.ChooseFree(4) // 0..2 = own header of 4 / 8 / 36 bytes, 3 = the previous reply message sent again
+	w := setup(c, 2)
+	m := w.ctxs[0]
+	if useCtx {
+		m = w.ctxs[1]
+	}
+	var prev *mangos.Message
+	for round := 0; round < 3; round++ {
+		pi := round % 2
+		r, data := w.mkRequest(pi, 2-round%2*2)
+		w.pipes[pi].Deliver(data)
+		kit.Quiesce()
+		rc := kit.Start("Recv", func() (interface{}, error) { b, err := m.recvCall(); return string(b), err })
+		kit.Quiesce()
+		if !rc.Done() || rc.Err != nil || rc.Val.(string) != r.body {
+			kit.Failf("recv-request:"+kind, "%s: request %q from p%d: Recv done=%v %s %q", kind, r.body, pi, rc.Done(), kit.ErrName(rc.Err), rc.Val)
+		}
+		w.newWire()
+		body := fmt.Sprintf("reply-%d", round)
+		var msg *mangos.Message
+		if mode == 3 && prev != nil {
+			msg = prev
+			msg.Body = append(msg.Body[:0], body...)
+		} else {
+			msg = mangos.NewMessage(32)
+			msg.Body = append(msg.Body, body...)
+			if mode < 3 {
+				for i := 0; i < []int{4, 8, 36}[mode]; i++ {
+					msg.Header = append(msg.Header, byte(0x80|i))
+				}
+			}
+		}
+		if mode == 3 {
+			msg.Clone() // the caller keeps a reference to send the message again next time
+			prev = msg
+		}
+		sc := kit.Start("SendMsg", func() (interface{}, error) {
+			if m.c != nil {
+				return nil, m.c.SendMsg(msg)
+			}
+			return nil, m.s.SendMsg(msg)
+		})
+		kit.Quiesce()
+		wire := w.newWire()
+		want := append(append([]byte{}, r.backtrace...), body...)
+		if !sc.Done() || sc.Err != nil || len(wire) != 1 || wire[0].pipe != pi || !bytes.Equal(wire[0].Data, want) {
+			kit.Failf("reply-bytes", "%s: round %d: the reply message %s: SendMsg done=%v %s, wire %v; want the request's routing header %x followed by %q on p%d only",
+				kind, round, []string{"carried a 4 byte header of its own", "carried an 8 byte header of its own", "carried a 36 byte header of its own", "is the previous reply message, sent again"}[mode], sc.Done(), kit.ErrName(sc.Err), wire, r.backtrace, body, pi)
+		}
+	}
+	kit.Count("own-header-replaced-by-the-routing-header")
+	kit.Observe("%s ctx=%v mode=%d", kind, useCtx, mode)
 	kit.Must("Close", func() { _ = w.sock.Close() })
 }
 
